@@ -1,7 +1,7 @@
 /-
 C01 at the level of BYTES with the layout tables DECODED: `C01_file_roundtrip` / `_cff` with the
-abstract layout decoders instantiated by C08's table-level reader (`Info.read` through the real
-subtable dispatchers, `Gdef.read`) and the abstract guards replaced by C08's domain (`InfoOk`,
+abstract layout decoders instantiated by C08's table-level reader (`Info.readGo`, the model of
+`gtab.Read` incl. `readLookupList`, through the real subtable dispatchers; `Gdef.read`) and the abstract guards replaced by C08's domain (`InfoOk`,
 `GdefOk` of the value the table bytes encode).  Proof: Proofs/FontFileLayout.lean.
 -/
 import SfntV.Proofs.FontFileLayout
@@ -14,10 +14,10 @@ open SfntV SfntV.Font SfntV.FontFile SfntV.Otl
 decoder is left: `layoutDec` runs `gdef.Read` / `gtab.Read` (C08 models) on the table bytes.  The
 domain asks, besides the guards of `C01_file_roundtrip` that do not concern layout tables (`core`),
 that every layout table present is `Info.encode` / `GdefV.encode` of a value in the domain of C08's
-round-trip theorem (`layout`).  Limits inherited from C08: the lookup list is read by C08's
-specification reader `LL.specRead` (agreement with the Go reader: `C08_readlookuplist_sound` and
-the streams), class-based subtables carry `PartGood` hypotheses inside `InfoOk`, GDEF is
-relational. -/
+round-trip theorem (`layout`), within the reader's budget (`BudgetOk`: lookups + subtables ≤ 6000).
+`gtab.Read` is C08's model of the Go reader itself (`Info.readGo`, incl. `readLookupList`), not a
+specification reader; class tables come back in normal form inside the codecs' `nf`; GDEF
+round-trips as an equation. -/
 theorem C01_file_roundtrip_layout (ef : EnvF) (caretOf : Int → Int → Int) (F : FileFont)
     (h : InDomainFileL ef F) :
     ∃ b, writeFile ef F = .ok b ∧ readFile layoutDec caretOf b = .ok (nfFile F) :=
